@@ -75,3 +75,14 @@ func (t *Tape) Record() []uint32 {
 }
 
 func (t *Tape) Pos() int { return t.pos }
+
+// Digest hashes the values consumed so far: a source of further per-run choices that costs no draw (adding a
+// feature this way leaves every recorded tape meaning what it meant).
+func (t *Tape) Digest() uint64 {
+	h := uint64(1469598103934665603)
+	for _, v := range t.vals[:t.pos] {
+		h ^= uint64(v)
+		h *= 1099511628211
+	}
+	return h
+}
